@@ -140,7 +140,7 @@ def c08():
 # ------------------------------------------------------------------------------------------- C04
 @prop('C04')
 def c04():
-    qs = [Q('dtor_order%d' % o, 'C04/dtor.cpp', 10, defs={'VF_ORDER': o, 'VF_CLAIM': 4}, timeout=600) for o in (0, 1, 2, 3, 4, 5)]
+    qs = [Q('dtor_order%d' % o, 'C04/dtor.cpp', 10, defs={'VF_ORDER': o, 'VF_CLAIM': 4}, timeout=900, portfolio=(o == 5)) for o in (0, 1, 2, 3, 4, 5)]
     qs += plumb_queries(4, (10,)) + [q for q in mismatch_queries(4) if q['tier'] == 'quick' and q['defs']['VF_NA'] <= 1]
     return dict(
         queries=qs,
